@@ -1,5 +1,6 @@
 import RactorModel.Extracted
 import RactorModel.Lemmas.LifeC03
+import RactorModel.Lemmas.LifeWorld
 
 /-!
 # C03 — Kill > stop > supervision > messages; stop is graceful, kill immediate
@@ -25,6 +26,17 @@ by the priority automaton. -/
 theorem priority (id : Nat) (ops : List AOp) : Life.C03.ok (trace id ops) = true := by
   obtain ⟨s', h, _⟩ := Life.C03.run_sim ops (Actor.init id) {} (Life.C03.inv_init id)
   simp [Life.C03.ok, trace, h, Except.isOk, Except.toBool]
+
+/-- **The same for the composed world** (what the driver replays): in every run of `World.step`
+from the empty world (one harness case: any number of actors, supervision links, effects routed
+between them), the trace projection of every actor `i` satisfies the property — because the world
+changes actors only through `Actor.step` (`Life.world_actor_run`). -/
+theorem priority_world (ops : List Op) (h : ∀ op ∈ ops, op ≠ .case) (i : Nat) :
+    Life.C03.ok (projEvs i (({} : World).run ops).2) = true := by
+  obtain ⟨aops, e⟩ := world_actor_run ops h i
+  have := priority i aops
+  simp only [trace, e] at this
+  exact this
 
 /-- The invariant behind it: unless the actor is done, an accepted kill is still in the signal
 port (the very next poll observes it first, in every phase), an accepted stop is still in the stop
@@ -130,6 +142,7 @@ example : Life.C03.ok [.stopRet false .none true, .tick .handle, .exit .handle .
 end C03
 
 #print axioms C03.priority
+#print axioms C03.priority_world
 #print axioms C03.invariant
 #print axioms C03.pick_signal
 #print axioms C03.pick_stop
